@@ -179,6 +179,32 @@ pub open spec fn best_isa_aarch64() -> Isa {
     if cpu_has_neon() { Isa::Neon } else { Isa::NoSimd }
 }
 
+// C14 provenance ("which compiled variant produced this value"): `ran_as(isa, v)` is uninterpreted, so nothing can be derived
+// about it except from the postcondition of a function that states it. The only source is R23 (tools/extract.py): at the end of
+// a function that carries `#[target_feature(enable = "F")]` in /repo's source, and only there, the extractor emits
+// `label_entry_point(Isa::F, p@)` for each `&mut` slice/array parameter p - i.e. "this value was left behind by code compiled
+// for F" is read off the attribute rustc itself uses to pick the code generator's feature set. Everything else (that the default
+// engine's eval_poly hands back a value labelled with the best reported ISA, that the decoders obtain their erasure locator
+// from the engine's dispatch and not from a portable routine) is then proved from contracts.
+pub uninterp spec fn ran_as<T>(isa: Isa, v: T) -> bool;
+#[verifier::external_body]
+pub proof fn label_entry_point<T>(isa: Isa, v: T) ensures ran_as(isa, v) {}
+// the best ISA the CPU reports, among those the crate knows for the view's architecture
+// @arch x86_64
+pub mod hostisa {
+    use vstd::prelude::*;
+    pub open spec fn best_isa() -> super::Isa { super::best_isa_x86() }
+    // the feature the 128-bit engine of this view (Ssse3) is compiled for
+    pub open spec fn cpu_has_simd128() -> bool { super::cpu_has_ssse3() }
+}
+// @arch aarch64
+pub mod hostisa {
+    use vstd::prelude::*;
+    pub open spec fn best_isa() -> super::Isa { super::best_isa_aarch64() }
+    // the feature the 128-bit engine of this view (Neon) is compiled for
+    pub open spec fn cpu_has_simd128() -> bool { super::cpu_has_neon() }
+}
+
 // Rust fact (trusted): a mutable slice reference cannot change the slice's length
 pub axiom fn axiom_mut_slice_len<T>(r: &mut [T])
     ensures final(r)@.len() == old(r)@.len();
@@ -234,12 +260,12 @@ pub mod simd {
     { unimplemented!() }
     #[verifier::external_body]
     pub fn load256(a: &[u8; 64], k: usize) -> (r: __m256i)
-        requires k < 2
+        requires super::cpu_has_avx2(), k < 2
         ensures forall|n: int| 0 <= n < 32 ==> #[trigger] r.b@[n] == a@[32 * k + n]
     { unimplemented!() }
     #[verifier::external_body]
     pub fn store256(a: &mut [u8; 64], k: usize, v: __m256i)
-        requires k < 2
+        requires super::cpu_has_avx2(), k < 2
         ensures forall|j: int| 0 <= j < 64 ==> #[trigger] final(a)@[j] == (if 32 * k <= j < 32 * k + 32 { v.b@[j - 32 * k] } else { old(a)@[j] })
     { unimplemented!() }
     // _mm_loadu_si128(std::ptr::from_ref::<u128>(p).cast::<__m128i>()): the 16 bytes of a u128 on a little-endian machine
@@ -269,6 +295,7 @@ pub mod simd {
     // PSHUFB
     #[verifier::external_body]
     pub fn _mm_shuffle_epi8(a: __m128i, b: __m128i) -> (r: __m128i)
+        requires super::cpu_has_ssse3()
         ensures forall|n: int| 0 <= n < 16 ==> #[trigger] r.b@[n] == if b.b@[n] & 0x80 != 0 { 0u8 } else { a.b@[(b.b@[n] & 0x0f) as int] }
     { unimplemented!() }
 
@@ -291,44 +318,53 @@ pub mod simd {
     { unimplemented!() }
     #[verifier::external_body]
     pub fn _mm256_or_si256(a: __m256i, b: __m256i) -> (r: __m256i)
+        requires super::cpu_has_avx2()
         ensures forall|n: int| 0 <= n < 32 ==> #[trigger] r.b@[n] == a.b@[n] | b.b@[n]
     { unimplemented!() }
     #[verifier::external_body]
     pub fn _mm256_andnot_si256(a: __m256i, b: __m256i) -> (r: __m256i)
+        requires super::cpu_has_avx2()
         ensures forall|n: int| 0 <= n < 32 ==> #[trigger] r.b@[n] == (!a.b@[n]) & b.b@[n]
     { unimplemented!() }
     #[verifier::external_body]
     pub fn _mm256_setzero_si256() -> (r: __m256i)
+        requires super::cpu_has_avx2()
         ensures forall|n: int| 0 <= n < 32 ==> #[trigger] r.b@[n] == 0u8
     { unimplemented!() }
     #[verifier::external_body]
     pub fn _mm256_testz_si256(a: __m256i, b: __m256i) -> (r: i32)
+        requires super::cpu_has_avx2()
         ensures (r == 1) == (forall|n: int| 0 <= n < 32 ==> #[trigger] a.b@[n] & b.b@[n] == 0u8), r == 0 || r == 1
     { unimplemented!() }
     #[verifier::external_body]
+    // no CPU precondition: its one use is in `impl From<&Multiply128lutT> for LutAvx2`, a trait impl, where none can be stated
     pub fn _mm256_broadcastsi128_si256(a: __m128i) -> (r: __m256i)
         ensures forall|n: int| 0 <= n < 32 ==> #[trigger] r.b@[n] == a.b@[n % 16]
     { unimplemented!() }
     #[verifier::external_body]
     pub fn _mm256_set1_epi8(a: i8) -> (r: __m256i)
+        requires super::cpu_has_avx2()
         ensures forall|n: int| 0 <= n < 32 ==> #[trigger] r.b@[n] == a as u8
     { unimplemented!() }
     #[verifier::external_body]
     pub fn _mm256_and_si256(a: __m256i, b: __m256i) -> (r: __m256i)
+        requires super::cpu_has_avx2()
         ensures forall|n: int| 0 <= n < 32 ==> #[trigger] r.b@[n] == a.b@[n] & b.b@[n]
     { unimplemented!() }
     #[verifier::external_body]
     pub fn _mm256_xor_si256(a: __m256i, b: __m256i) -> (r: __m256i)
+        requires super::cpu_has_avx2()
         ensures forall|n: int| 0 <= n < 32 ==> #[trigger] r.b@[n] == a.b@[n] ^ b.b@[n]
     { unimplemented!() }
     #[verifier::external_body]
     pub fn _mm256_srli_epi64(a: __m256i, imm8: i32) -> (r: __m256i)
-        requires imm8 == 4
+        requires super::cpu_has_avx2(), imm8 == 4
         ensures forall|n: int| 0 <= n < 32 ==> #[trigger] r.b@[n] == (a.b@[n] >> 4) | (if n % 8 < 7 { (a.b@[n + 1] << 4) as u8 } else { 0u8 })
     { unimplemented!() }
     // VPSHUFB: two independent 128-bit lanes
     #[verifier::external_body]
     pub fn _mm256_shuffle_epi8(a: __m256i, b: __m256i) -> (r: __m256i)
+        requires super::cpu_has_avx2()
         ensures forall|n: int| 0 <= n < 32 ==> #[trigger] r.b@[n] == if b.b@[n] & 0x80 != 0 { 0u8 } else { a.b@[(n / 16) * 16 + (b.b@[n] & 0x0f) as int] }
     { unimplemented!() }
 }
@@ -349,32 +385,36 @@ pub mod neon {
     // vld1q_u8(p.add(off)) with p = a.as_mut_ptr()
     #[verifier::external_body]
     pub fn nload(a: &[u8; 64], off: usize) -> (r: uint8x16_t)
-        requires off + 16 <= 64
+        requires super::cpu_has_neon(), off + 16 <= 64
         ensures forall|n: int| 0 <= n < 16 ==> #[trigger] r.b@[n] == a@[off + n]
     { unimplemented!() }
     // vst1q_u8(p.add(off), v) with p = a.as_mut_ptr()
     #[verifier::external_body]
     pub fn nstore(a: &mut [u8; 64], off: usize, v: uint8x16_t)
-        requires off + 16 <= 64
+        requires super::cpu_has_neon(), off + 16 <= 64
         ensures forall|j: int| 0 <= j < 64 ==> #[trigger] final(a)@[j] == (if off <= j < off + 16 { v.b@[j - off] } else { old(a)@[j] })
     { unimplemented!() }
     // vld1q_u8(std::ptr::from_ref::<u128>(p).cast::<u8>()): the 16 bytes of a u128 on a little-endian machine
     #[verifier::external_body]
     pub fn nload_u128(p: &u128) -> (r: uint8x16_t)
+        requires super::cpu_has_neon()
         ensures forall|n: int| 0 <= n < 16 ==> #[trigger] r.b@[n] == byte_of(*p, n)
     { unimplemented!() }
 
     // DUP: every lane = the scalar
     #[verifier::external_body]
     pub fn vdupq_n_u8(value: u8) -> (r: uint8x16_t)
+        requires super::cpu_has_neon()
         ensures forall|n: int| 0 <= n < 16 ==> #[trigger] r.b@[n] == value
     { unimplemented!() }
     #[verifier::external_body]
     pub fn vandq_u8(a: uint8x16_t, b: uint8x16_t) -> (r: uint8x16_t)
+        requires super::cpu_has_neon()
         ensures forall|n: int| 0 <= n < 16 ==> #[trigger] r.b@[n] == a.b@[n] & b.b@[n]
     { unimplemented!() }
     #[verifier::external_body]
     pub fn veorq_u8(a: uint8x16_t, b: uint8x16_t) -> (r: uint8x16_t)
+        requires super::cpu_has_neon()
         ensures forall|n: int| 0 <= n < 16 ==> #[trigger] r.b@[n] == a.b@[n] ^ b.b@[n]
     { unimplemented!() }
     // USHR: logical right shift of each 8-bit lane (no bits cross lanes); specified for the one shift count the crate uses.
@@ -382,12 +422,13 @@ pub mod neon {
     //  the model takes the count as an ordinary argument.)
     #[verifier::external_body]
     pub fn vshrq_n_u8(a: uint8x16_t, n_: i32) -> (r: uint8x16_t)
-        requires n_ == 4
+        requires super::cpu_has_neon(), n_ == 4
         ensures forall|n: int| 0 <= n < 16 ==> #[trigger] r.b@[n] == a.b@[n] >> 4
     { unimplemented!() }
     // TBL (one table register): lane n = t[idx[n]] if idx[n] < 16, else 0
     #[verifier::external_body]
     pub fn vqtbl1q_u8(t: uint8x16_t, idx: uint8x16_t) -> (r: uint8x16_t)
+        requires super::cpu_has_neon()
         ensures forall|n: int| 0 <= n < 16 ==> #[trigger] r.b@[n] == if idx.b@[n] < 16 { t.b@[idx.b@[n] as int] } else { 0u8 }
     { unimplemented!() }
 }
